@@ -44,11 +44,33 @@ class Chooser:
         return sum(1 for c in self.trace if c)
 
 
+def split_prefixes(body: Callable[[Chooser], Any], depth: int, bound: int | None = None) -> list[tuple[int, ...]]:
+    """All choice prefixes of length <= depth that partition the execution tree
+    (used to shard one exploration over worker processes)."""
+    level: list[tuple[int, ...]] = [()]
+    for _ in range(depth):
+        nxt: list[tuple[int, ...]] = []
+        for pre in level:
+            ch = Chooser(pre)
+            body(ch)
+            if len(ch.trace) <= len(pre):
+                nxt.append(pre)      # complete execution: a leaf
+                continue
+            dev = sum(1 for c in pre if c)
+            for i in range(ch.arity[len(pre)]):
+                if bound is not None and dev + (1 if i else 0) > bound:
+                    continue
+                nxt.append(pre + (i,))
+        level = nxt
+    return level
+
+
 def explore(body: Callable[[Chooser], Any], bound: int | None = None,
-            max_runs: int | None = None) -> Iterator[tuple[tuple[int, ...], Chooser, Any]]:
+            max_runs: int | None = None, root: tuple[int, ...] = ()) -> Iterator[tuple[tuple[int, ...], Chooser, Any]]:
     """Yield (choices, chooser, observation) for every execution within the
-    deviation bound.  Each execution is generated exactly once."""
-    stack: list[tuple[int, ...]] = [()]
+    deviation bound whose choices start with `root`.  Each execution is
+    generated exactly once."""
+    stack: list[tuple[int, ...]] = [tuple(root)]
     runs = 0
     while stack:
         prefix = stack.pop()
